@@ -385,7 +385,7 @@ func c07StalledSendScenarios(full bool) []cwScenario {
 // cancellation (they wait for their contexts); then all of them are cancelled (or the oldest one, with all the others
 // active). Every cancelled call's handler context is done once its reset has reached the server, and the handler
 // returns. n ranges over the resource numbers of the code (8 workers, queue capacities 1 and 16) and the round numbers
-// a limit might be set to. Not compared with the model (mode e2efree): predicates only.
+// a limit might be set to, plus one (quick: 9, 17, 33, 101; thorough: also 2, 65, 129, 257). Not compared with the model (mode e2efree): predicates only.
 func c07Scale(n int, how string) cwScenario {
 	var s []Step
 	kinds := []string{"Bidi", "CStream", "SStream"}
@@ -412,9 +412,10 @@ func c07Scale(n int, how string) cwScenario {
 
 func c07ScaleScenarios(full bool) []cwScenario {
 	var out []cwScenario
-	ns := []int{9, 17, 33, 101, 129}
+	// (one observation per step, each listing every live handler: 1000 streams would be 7 million entries; not run)
+	ns := []int{9, 17, 33, 101}
 	if full {
-		ns = []int{2, 9, 17, 33, 65, 101, 129, 257, 1001}
+		ns = []int{2, 9, 17, 33, 65, 101, 129, 257}
 	}
 	for _, n := range ns {
 		out = append(out, c07Scale(n, "all"), c07Scale(n, "oldest"))
